@@ -51,6 +51,10 @@ CLAIMED = {
   "fault-driven part: transfers of media segments and on-demand files are cut by net.truncate at byte k and resumed with bytes=k- at the same frozen clock, prefix + tail must equal a reference copy; generated part: Range strings around 0, len-1, len, len+1, suffix ranges, open ranges and a catalogue of malformed headers, each compared with the full body fetched at the same clock (206 slice + Content-Range, whole resource for over-long suffix, 416 with bytes */len, 400 or consistent service for non-RFC-7233 headers, never 5xx); other clients interleaved",
   "claimed narrowly: only the truncated-transfer/resume part has simulation content; the header catalogue is plain seeded generation and is counted separately in the evidence (oracle_checks c13-ok / c13-not-single / c13-unsatisfiable vs c13-resume-after-truncate); initialization segments are outside the statement (they do not honour ranges)",
   TECH + "paired ranged/unranged requests at one simulated instant"),
+ "C12": ("exploration",
+  "multi-period streams (1-3 periods over fixture and forged streams, source offsets and durations on and off segment boundaries, periods reaching beyond the source) are created through the management API; players fetch /mps/live|vod manifests of every template while the clock walks across period and loop boundaries, the server restarts and a manager creates, edits and deletes a different multi-period stream concurrently; oracle: unique ids, contiguity, VOD durations sum to mediaPresentationDuration, live periods cover [now-TSBD, now]; per period: init and every admitted number served, number n carries the payload of the n-th stored segment counted from the one nearest the period's source offset (own scan of the stored files), decode times from 0 and gapless, numbers beyond the source refused with 404",
+  "sampling; the per-period walk is done for $Number$ addressing as the statement speaks of segment numbers, SegmentTimeline manifests of multi-period streams are judged at manifest level only",
+  TECH + "period-walk oracle against own scan of the stored media"),
 }
 
 PENDING_REASON = "check not built yet in this session (planned, see DESIGN.md build order); not claimed until its simulation exists"
